@@ -7,6 +7,7 @@ oracle_c13 — line protocol (one queue per script; the first line creates it). 
 step of the transition system followed by resuming woken consumers until nobody is woken (quiescence).
   `new q|async|mux <cap>` | `new mq <ctrlCap> <reqCap>` | `new syncq` | `new priq <cap>` → `ok`
   list queues: `pop` `popany` (a NEW blocking consumer) → `ret:<r>` | `parked`
+               `waitclose` (mux, mq) `waitclear` (mq): a NEW caller blocked in WaitClose/WaitClear → `ret:ok` | `parked`
                `add x` `prior x` `addc x` `priorc x` `close` `tryclose` `tryclear` `trypop` → `<result>`
                `atomic <ev> ; <ev> …` (ev ∈ add/prior/addc/priorc/close/tryclose): a burst of producer events → `<r1>;<r2>…`
   priq:        `push x p` `pop` `len` → `<result>`;  `recv` → `got` | `empty`;  `waitlen` → `0` | `1`;
@@ -28,6 +29,8 @@ structure AS where
   pa : Nat      -- parked in PopAnyway
   wp : Nat      -- woken, called Pop
   wa : Nat      -- woken, called PopAnyway
+  wc : Nat      -- callers blocked in WaitClose (released when `stopChan` is closed, i.e. when the queue is closed)
+  wl : Nat      -- callers blocked in WaitClear (MQ; released when the queue is cleared)
 deriving DecidableEq
 
 inductive St
@@ -39,6 +42,7 @@ def showOut : Out → String
   | .ok => "ok" | .closed => "closed" | .full => "full" | .ctrlFull => "ctrl-full"
   | .val x => s!"v:{x}" | .nil => "nil" | .none => "none" | .wouldBlock => "would-block"
   | .bool b => if b then "true" else "false" | .num n => s!"{n}" | .badOp => "bad-op"
+  | .spun _ _ => "spun"
 
 def insertS (x : String) : List String → List String
   | [] => [x]
@@ -62,8 +66,8 @@ def concretize (a : AS) : CS :=
 
 def countKind (k : Bool) (l : List (Tid × Bool)) : Nat := (l.filter (fun e => e.2 == k)).length
 
-def abstractS (s : CS) : AS :=
-  ⟨s.q, countKind false s.parked, countKind true s.parked, countKind false s.woken, countKind true s.woken⟩
+def abstractS (s : CS) (wc wl : Nat) : AS :=
+  ⟨s.q, countKind false s.parked, countKind true s.parked, countKind false s.woken, countKind true s.woken, wc, wl⟩
 
 def firstOfKind (k : Bool) (l : List (Tid × Bool)) : Option Tid := (l.find? (fun e => e.2 == k)).map (·.1)
 
@@ -130,12 +134,12 @@ def expand (P : Par) (c : Cfg1) : List Cfg1 :=
         | none => none
         | some (act, r1) => match Nv.C13.step P s act with
           | none => none
-          | some s' => some ⟨abstractS s', r, r1 :: c.res, sortS (c.rets ++ s'.done.map (fun d => showOut d.2))⟩
+          | some s' => some ⟨abstractS s' c.a.wc c.a.wl, r, r1 :: c.res, sortS (c.rets ++ s'.done.map (fun d => showOut d.2))⟩
   let rsSucc : List Cfg1 :=
     ([firstOfKind false s.woken, firstOfKind true s.woken].filterMap id).filterMap fun t =>
       match Nv.C13.step P s (.resume t) with
       | none => none
-      | some s' => some ⟨abstractS s', c.evs, c.res, sortS (c.rets ++ s'.done.map (fun d => showOut d.2))⟩
+      | some s' => some ⟨abstractS s' c.a.wc c.a.wl, c.evs, c.res, sortS (c.rets ++ s'.done.map (fun d => showOut d.2))⟩
   evSucc ++ rsSucc
 
 def isTerminal (c : Cfg1) : Bool := c.evs.isEmpty && c.a.wp == 0 && c.a.wa == 0
@@ -152,7 +156,15 @@ def explore (P : Par) : Nat → List Cfg1 → List Cfg1 → List Cfg1
       let next := (rest.flatMap (expand P)).foldr addNew []
       explore P n next (term.foldr addNew done)
 
-def outOf (c : Cfg1) : String := ";".intercalate c.res.reverse ++ suffix c.rets (c.a.pp + c.a.pa)
+/-- at the end of a line: WaitClose callers return once the queue is closed, WaitClear callers once it is cleared
+    (the channels are closed in the same critical sections that set the flags — a regenerated fact) -/
+def release (c : Cfg1) : Cfg1 :=
+  let c1 := if c.a.q.closed && c.a.wc > 0 then
+      { c with a := { c.a with wc := 0 }, rets := sortS (c.rets ++ List.replicate c.a.wc "ok") } else c
+  if c1.a.q.cleared && c1.a.wl > 0 then
+    { c1 with a := { c1.a with wl := 0 }, rets := sortS (c1.rets ++ List.replicate c1.a.wl "ok") } else c1
+
+def outOf (c : Cfg1) : String := ";".intercalate c.res.reverse ++ suffix c.rets (c.a.pp + c.a.pa + c.a.wc + c.a.wl)
 
 def dedupS (l : List String) : List String := l.foldr (fun x acc => if acc.contains x then acc else x :: acc) []
 def dedupA (l : List AS) : List AS := l.foldr (fun x acc => if acc.contains x then acc else x :: acc) []
@@ -176,7 +188,17 @@ def lqLine (P : Par) (ss : List AS) (ws : List String) : St × String :=
         let r := match s1.done with
           | (_, o) :: _ => "ret:" ++ showOut o
           | [] => "parked"
-        (abstractS s1, r ++ suffix [] s1.parked.length)
+        (abstractS s1 a.wc a.wl, r ++ suffix [] (s1.parked.length + a.wc + a.wl))
+    (.lq P (dedupA (rs.map (·.1))), showSet (rs.map (·.2)))
+  | ["waitclose"] | ["waitclear"] =>
+    let clear := ws == ["waitclear"]
+    if (clear && P.kind != .mq) || (!clear && P.kind != .mq && P.kind != .mux) then (.lq P ss, "bad-op") else
+    let rs := ss.map fun a =>
+      let done := if clear then a.q.cleared else a.q.closed
+      if done then (a, "ret:ok" ++ suffix [] (a.pp + a.pa + a.wc + a.wl))
+      else
+        let a' := if clear then { a with wl := a.wl + 1 } else { a with wc := a.wc + 1 }
+        (a', "parked" ++ suffix [] (a'.pp + a'.pa + a'.wc + a'.wl))
     (.lq P (dedupA (rs.map (·.1))), showSet (rs.map (·.2)))
   | _ =>
     let atomic := ws.head? == some "atomic"
@@ -185,7 +207,7 @@ def lqLine (P : Par) (ss : List AS) (ws : List String) : St × String :=
     | [] => (.lq P ss, "bad-op")
     | a0 :: _ =>
       if !eventsOk P atomic evs (concretize a0) then (.lq P ss, "bad-op") else
-      let finals := explore P 400 (ss.map fun a => ⟨a, evs, [], []⟩) []
+      let finals := (explore P 400 (ss.map fun a => ⟨a, evs, [], []⟩) []).map release
       (.lq P (dedupA (finals.map (·.a))), showSet (finals.map outOf))
 
 /-! priq -/
@@ -247,14 +269,14 @@ def pqLine (s : PS) (w : Nat) (ws : List String) : St × String :=
 def step (st : St) (line : String) : St × String :=
   match words line with
   | ["new", "mq", a, b] => match parseInt? a, parseInt? b with
-    | some a, some b => (.lq (mkPar .mq) [⟨LQ.new .mq a b, 0, 0, 0, 0⟩], "ok")
+    | some a, some b => (.lq (mkPar .mq) [⟨LQ.new .mq a b, 0, 0, 0, 0, 0, 0⟩], "ok")
     | _, _ => (.none, "bad-op")
-  | ["new", "syncq"] => (.lq (mkPar .syncq) [⟨LQ.new .syncq 0 0, 0, 0, 0, 0⟩], "ok")
+  | ["new", "syncq"] => (.lq (mkPar .syncq) [⟨LQ.new .syncq 0 0, 0, 0, 0, 0, 0, 0⟩], "ok")
   | ["new", "priq", a] => match parseInt? a with
     | some a => (.pq (PS.init a) 0, "ok")
     | none => (.none, "bad-op")
   | ["new", k, a] => match parseKind k, parseInt? a with
-    | some k, some a => (.lq (mkPar k) [⟨LQ.new k 0 a, 0, 0, 0, 0⟩], "ok")
+    | some k, some a => (.lq (mkPar k) [⟨LQ.new k 0 a, 0, 0, 0, 0, 0, 0⟩], "ok")
     | _, _ => (.none, "bad-op")
   | "new" :: _ => (.none, "bad-op")
   | ws => match st with
